@@ -111,7 +111,9 @@ func Prop(c Case, x *h.Ctx) *h.Violation {
 		if v != nil {
 			vc = append([]byte{}, v...)
 		}
+		firedBefore := dctl.Fired + ictl.Fired
 		err := w.WriteNext(kc, vc)
+		faultFired := dctl.Fired+ictl.Fired > firedBefore
 		for j := range kc {
 			kc[j] = 0xEE
 		}
@@ -127,7 +129,11 @@ func Prop(c Case, x *h.Ctx) *h.Violation {
 			orderRej++
 			continue
 		}
-		if call.Fault != "" {
+		if call.Fault != "" && !faultFired && err == nil {
+			// the armed writer was not used by this call (an index that is not written for every record, say): an
+			// ordinary accepted write
+			x.Label("armed-fault-did-not-fire")
+		} else if call.Fault != "" {
 			if err == nil {
 				return h.V("writer/fault-absorbed", "call %d: injected %s-append failure, WriteNext returned nil", i, call.Fault)
 			}
